@@ -170,6 +170,28 @@ def clause_c(ctx, P):
     addrq = [b for b, t in q.calls() if name_matches(cname(t), "Zeroconf::send_query_vec")]
     ok = bool(anyq) and all(must_pass_edges(q, b, e_nosrv) for b in anyq) and bool(addrq) and all(must_pass_edges(q, b, e_noaddr) for b in addrq)
     ctx.ob("C04c.followup-asks-what-is-missing", q.name, ok, q.loc(), "ANY is asked when no SRV is cached; A/AAAA when the SRV host has no address")
+    # ... and under the right names: the address questions carry the SRV's host (the name whose addresses are missing and
+    # that the get_addr test looked at), the ANY question the instance name
+    okn = bool(addrq)
+    det = []
+    for b in addrq:
+        e = qtr.operand(q.term(b)["args"][1], endpos(q, b))
+        names = [x for x in walk(e) if x[0] == "agg" and x[1] == "tuple" and len(x[4]) == 2]
+        for tup in names:
+            nm = tup[4][0]
+            host = has_call(nm, "DnsSrv::host")
+            det.append(show(nm)[:50])
+            if not host:
+                okn = False
+        if not names:
+            okn = okn and has_call(e, "DnsSrv::host") and not any(x == ("param", 2) for x in walk(e))
+    for b in anyq:
+        e = qtr.operand(q.term(b)["args"][1], endpos(q, b))
+        if not any(x == ("param", 2) for x in strip(e)):
+            okn = False
+            det.append("ANY for " + show(e)[:40])
+    ctx.ob("C04c.followup-asks-under-the-right-name", q.name, okn, q.loc(),
+           "A/AAAA are asked for DnsSrv::host() of the cached SRV, ANY for the instance (%s)" % "; ".join(det[:3]))
 
 
 def clause_d(ctx, P):
@@ -197,6 +219,7 @@ def run(ctx, P):
     r2.purges_keep_other_commands(ctx, P, "C04f")
     r2.sweeps_drop_empty_entries(ctx, P, "C04g")
     r2.events_are_lossless(ctx, P, "C04h")
+    r2.changed_instance_is_the_ptr_target(ctx, P, "C04i")
     clause_e(ctx, P)
     clause_a(ctx, P)
     clause_b(ctx, P)
